@@ -31,6 +31,7 @@ MODEL = "krylov"
 TRUSTED_BASE = [
     "Extract_krylov.v via ExtractCommon.v (Z.ggcd realised by zarith gcd)",
     "operator abstraction: A and P enter the Coq model as functions vec -> vec; P.apply is assumed to overwrite its output",
+    "binary64 scripts: the Scalar instance Float64 of ocaml/krylov/ops_krylov.ml (OCaml floats, hand-written, not extracted)",
     "the workspace record of each model lists the mutable members of the C++ class by reading the class (cg: r,s,p,q; "
     "bicgstab: r,p,v,s,t,rh,T; richardson: r,s; gmres/fgmres: H,s,cs,sn,r,v[],z[]; lgmres: the same + outer_v (ring of slot "
     "indices) and outer_v_data[]; bicgstabl: Rt,X,B,T,R[],U[] (MZa,MZb,Y0,YL,qr scratch are written completely before "
